@@ -21,6 +21,10 @@ pub fn atoms(ty: &str) -> Vec<Vec<Iv>> {
             c('z'),
             vec![],
         ],
+        // "gap" tables: single-character atoms that are neighbours in the type's character table although code points that do
+        // not belong to the type lie between them (atom 4 is empty): ( ) | + ,   and   SP 0 | 1 2
+        "PrintableString/gap" => vec![vec![(32, 32), (39, 39)], c('('), c(')'), vec![], c('+'), c(','), vec![(45, 58), (61, 61), (63, 63), (65, 90), (97, 121)], c('z'), vec![]],
+        "NumericString/gap" => vec![vec![], c(' '), c('0'), vec![], c('1'), c('2'), vec![('3' as u32, '7' as u32)], c('8'), c('9')],
         "VisibleString" => vec![vec![(32, 47)], c('0'), c('1'), vec![('2' as u32, '@' as u32)], c('A'), c('B'), vec![('C' as u32, 'y' as u32)], c('z'), vec![('{' as u32, '~' as u32)]],
         "IA5String" => vec![vec![(0, 47)], c('0'), c('1'), vec![('2' as u32, '@' as u32)], c('A'), c('B'), vec![('C' as u32, 'y' as u32)], c('z'), vec![('{' as u32, 127)]],
         // a multi-byte character as the last single-character atom
@@ -52,7 +56,7 @@ fn operand(ty: &str, o: &Value, k: usize) -> String {
         "range_vhi" => format!("{}..alv{k}hi", q("lo")),
         "range_vlo_max" => format!("alv{k}lo..MAX"),
         "range_min_vhi" => format!("MIN..alv{k}hi"),
-        _ => format!("Incl{}", ty.replace("/hi", "hi")),
+        _ => format!("Incl{}", ty.replace("/hi", "hi").replace("/gap", "")),
     }
 }
 
@@ -74,6 +78,11 @@ fn table(c: &Value) -> String {
     let ty = c["ty"].as_str().unwrap();
     let os = c["os"].as_array().unwrap();
     let huge_span = |o: &Value| o["k"].as_str().unwrap_or("").starts_with("range") && o["hi"].as_u64().unwrap_or(0) >= 8 && o["lo"] != 8;
+    // strings of several characters (the long-strings slice) are drawn from the gap tables
+    let long_str = |o: &Value| o["k"] == "str" && o["chars"].as_array().map(|a| a.len() >= 2).unwrap_or(false);
+    if (ty == "PrintableString" || ty == "NumericString") && os.iter().any(long_str) {
+        return format!("{ty}/gap");
+    }
     if ty == "BMPString" && os.len() == 1 && !huge_span(&os[0]) {
         "BMPString/hi".into()
     } else {
